@@ -92,6 +92,9 @@ func c10Gen(r *driver.Rand, thorough bool) *driver.Plan {
 	if r.Chance(1, 3) {
 		p.PreemptN = driver.Pick(r, 2, 4)
 	}
+	if r.Chance(1, 8) {
+		p.SetX("uses", 2)
+	}
 	return p
 }
 
@@ -121,7 +124,9 @@ type c10State struct {
 	seq *driver.Stream[int] // pipe.Fold on the same input
 }
 
-func c10Build(e *driver.Env) {
+func c10Build(e *driver.Env) { driver.Phased(e, c10BuildOne, c10Final) }
+
+func c10BuildOne(e *driver.Env) {
 	st := &c10State{s: BuildStage(e, "C10.a")}
 	// the sequential stage on the same input, in the same run
 	in2 := make(chan int, e.Plan.Cap)
